@@ -66,12 +66,12 @@ func genLedgerFacts() (string, error) {
 		"ErrInvalidNumCommittees", "ErrInvalidChainId", "ErrRejectProposal", "ErrNonSubsidizedCommittee",
 		"ErrInvalidQCCommitteeHeight", "ErrInvalidQCRootChainHeight", "ErrInvalidDoubleSigner",
 		"ErrInvalidDoubleSignHeights", "ErrInvalidPercentAllocation", "ErrInvalidParam", "ErrUnknownParam",
-		"ErrUnknownParamSpace", "ErrInvalidArgument", "ErrInvalidBlockRange", "ErrInvalidAddress"} {
+		"ErrUnknownParamSpace", "ErrInvalidArgument", "ErrInvalidBlockRange", "ErrInvalidAddress", "InvalidSellOrder"} {
 		id, e := ctor(n)
 		if e != nil {
 			return "", e
 		}
-		lean := "err" + strings.TrimPrefix(n, "Err")
+		lean := "err" + strings.TrimPrefix(n, "Err") // InvalidSellOrder has no Err prefix in the source
 		if n == "ErrStakeBelowMininum" {
 			lean = "errStakeBelowMinimum"
 		}
@@ -99,7 +99,10 @@ func genLedgerFacts() (string, error) {
 	if !regexp.MustCompile(`(?s)var ReservedIDs = \[\]uint64\{\s*lib\.UnknownChainId,\s*lib\.DAOPoolID,[^}]*\}`).Match(keySrc) {
 		return "", fmt.Errorf("fsm/key.go: ReservedIDs is no longer {UnknownChainId, DAOPoolID}")
 	}
-	b.WriteString("\ndef daoPoolId : Nat := 2 * 65535 + 1\ndef maxChainId : Nat := 65535 / 4\ndef reservedIds : List Nat := [0, daoPoolId]\n")
+	if !regexp.MustCompile(`EscrowPoolAddend\s*=\s*uint64\(4 \* math\.MaxUint16 / 4\)`).Match(keySrc) {
+		return "", fmt.Errorf("fsm/key.go: EscrowPoolAddend is no longer 4 * math.MaxUint16 / 4")
+	}
+	b.WriteString("\ndef daoPoolId : Nat := 2 * 65535 + 1\ndef maxChainId : Nat := 65535 / 4\ndef reservedIds : List Nat := [0, daoPoolId]\ndef escrowPoolAddend : Nat := 4 * 65535 / 4\n")
 
 	// digests of the transcribed function bodies
 	type fn struct{ file, recv, name string }
@@ -143,7 +146,7 @@ func genLedgerFacts() (string, error) {
 		{"fsm/gov.go", "StateMachine", "ApproveProposal"}, {"fsm/gov.go", "StateMachine", "UpdateParam"},
 		{"fsm/gov.go", "StateMachine", "ConformStateToParamUpdate"}, {"fsm/gov.go", "StateMachine", "IsFeatureEnabled"},
 		{"fsm/gov_params.go", "ValidatorParams", "Check"}, {"fsm/gov.go", "StateMachine", "getParams"}, {"fsm/gov.go", "StateMachine", "setParams"},
-		{"fsm/genesis.go", "StateMachine", "NewStateFromGenesis"}, {"fsm/genesis.go", "StateMachine", "ValidateGenesisState"},
+		{"fsm/genesis.go", "StateMachine", "NewStateFromGenesis"}, {"fsm/swap.go", "StateMachine", "SetOrderBooks"}, {"fsm/genesis.go", "StateMachine", "ValidateGenesisState"},
 		{"fsm/transaction.go", "StateMachine", "ApplyTransaction"},
 		{"fsm/message_helpers.go", "", "checkCommittees"},
 		{"lib/certificate.go", "CommitteeData", "Combine"}, {"lib/certificate.go", "CommitteeData", "addPercents"},
@@ -218,6 +221,24 @@ func genLedgerFacts() (string, error) {
 		}
 		b.WriteString("\n/-- `ValidateGenesisState`: (list, key handed to the DeDuplicator, error identity returned on a repeated key) -/\n")
 		fmt.Fprintf(&b, "def genesisDedup : List (String × String × String) := [\n  %s]\n", strings.Join(rows, ",\n  "))
+	}
+	// the order of the state-writing steps of NewStateFromGenesis (C04 `genesis_steps_pinned`): SetPools OVERWRITES a
+	// pool, SetOrderBooks ADDS the open orders to the escrow pools, so the pools must be written first
+	{
+		pf, e := g.ParseFile(filepath.Join(*repo, "fsm/genesis.go"))
+		if e != nil {
+			return "", e
+		}
+		fd := pf.FindFunc("StateMachine", "NewStateFromGenesis")
+		if fd == nil || fd.Body == nil {
+			return "", fmt.Errorf("fsm/genesis.go: NewStateFromGenesis not found")
+		}
+		var steps []string
+		for _, m := range regexp.MustCompile(`s\.(Set\w+)\(`).FindAllStringSubmatch(g.StmtsText(fd.Body.List), -1) {
+			steps = append(steps, fmt.Sprintf("%q", m[1]))
+		}
+		b.WriteString("\n/-- the state-writing calls of `NewStateFromGenesis`, in source order -/\n")
+		fmt.Fprintf(&b, "def genesisSteps : List String := [%s]\n", strings.Join(steps, ", "))
 	}
 	b.WriteString("\nend Canopy.Gen.LedgerFacts\n")
 	return b.String(), nil
